@@ -82,9 +82,17 @@ def key : Compiler → List Char
   | .groovyc => "groovy:".toList
   | .scalac => "Error: ".toList
 
-/-- the line, alone, would make the analysis report a compiler crash -/
-def lineCrash (c : Compiler) (l : List Char) : Bool :=
-  crashSearch c (l ++ ['\n']) || (c == .groovyc && stackOverflowSearch (l ++ ['\n']))
+/-- the line can make the crash pattern fire. For kotlinc, groovyc, scalac and the as-is javac
+pattern: the line alone does (it contains the marker). For the repaired javac pattern
+`(java\.lang.*)\n([ \t]+at .*)` a crash needs a line containing `java.lang` FOLLOWED by a frame
+line; the clause asked of every line is only that it is not such a frame line (does not start
+with blanks and `at `), so messages and quoted source lines may contain `java.lang` freely. -/
+def lineCrashV (v : JavaCrashVariant) (c : Compiler) (l : List Char) : Bool :=
+  match c, v with
+  | .javac, .framed => frameLine l
+  | _, _ => crashSearchV v c (l ++ ['\n']) || (c == .groovyc && stackOverflowSearch (l ++ ['\n']))
+
+def lineCrash (c : Compiler) (l : List Char) : Bool := lineCrashV javaCrashVariant c l
 
 /-- a line that is neither an error header nor a crash marker -/
 def textOK (c : Compiler) (l : List Char) : Bool :=
@@ -188,8 +196,15 @@ def renderTrace : Option Trace → List Char
   | none => []
   | some t => unlines t.lines
 
-/-- the head line makes the compiler's `CRASH_REGEX` fire -/
+/-- the trace, alone, makes the compiler's `CRASH_REGEX` fire (for the repaired javac pattern:
+the head line names `java.lang…` and the first frame is `<blanks>at …`) -/
 def WFTrace (c : Compiler) (t : Trace) : Prop :=
-  crashSearch c (t.head ++ ['\n']) = true
+  crashSearch c (unlines t.lines) = true
+
+/-- exact batch-level condition for the repaired javac pattern: some line containing
+`java.lang` is directly followed by a frame line -/
+def framePairs : List (List Char) → Bool
+  | l1 :: l2 :: rest => (hasInfix "java.lang".toList l1 && frameLine l2) || framePairs (l2 :: rest)
+  | _ => false
 
 end Heph.Diag
